@@ -34,8 +34,12 @@ def split(args: Sequence[str]) -> tuple[Sequence[str], Sequence[str]]:
         if a in ["-m", "--module"]:
             i = min(i + 1, len(args) - 1)
             break
+        elif a.startswith(("-m", "--module=")):
+            # -mMODULE and --module=MODULE carry the module name themselves
+            break
         elif a.startswith("-"):
-            in_flag = True
+            # the next arg is this flag's value, unless the value is attached (--flag=value or -fvalue)
+            in_flag = "=" not in a if a.startswith("--") else len(a) <= 2
         elif not in_flag:
             break
         else:
